@@ -359,7 +359,11 @@ impl<'a> Checker<'a> {
                 }
             }
             let stored: u64 = obs.new_xorbs.iter().map(|x| x.file_len).sum();
-            if m.xorb_bytes_uploaded as u64 != stored {
+            // Lower bound only in this driver: LocalClient::put answers 0 for an xorb that already exists and
+            // its size otherwise, and two identical xorbs cut by concurrently cleaned files may both be written
+            // (each put reports its bytes), so the sum of put results is timing dependent above the bytes that
+            // appeared in the store.  The exact equation is decided by the injected driver (lab_inject).
+            if (m.xorb_bytes_uploaded as u64) < stored {
                 self.viol("C14/xorb-bytes-uploaded", format!("session {si}: xorb_bytes_uploaded = {} but the store wrote {stored} bytes of new xorbs", m.xorb_bytes_uploaded), scn, si);
             }
             let shard_stored: u64 = obs.new_store_shards.iter().map(|s| s.len).sum();
